@@ -255,6 +255,32 @@ fn collections() -> R {
     Ok(())
 }
 
+/// replacing an assertion by itself changes nothing; by an obscured form of itself it changes only that element
+fn replace_same() -> R {
+    let cat = spec::catalogue(7, true, false, false);
+    let extra = vec![n(l(1), vec![a(l(2), l(3)), a(l(4), l(5)), a(l(6), l(7))]), n(l(1), vec![n(a(l(2), l(3)), vec![a(l(4), l(5))]), a(l(6), l(7))])];
+    let i = choice(cat.len() + extra.len());
+    let s = if i < cat.len() { &cat[i] } else { &extra[i - cat.len()] };
+    let e = build(s);
+    let asr = e.assertions();
+    rt::assume(!asr.is_empty())?;
+    let before = bytes(&e);
+    let j = choice(asr.len());
+    let form = choice(3);
+    let twin = match form { 0 => asr[j].clone(), 1 => asr[j].elide(), _ => must!(asr[j].compress(), "compress failed") };
+    op("replace_assertion (by itself / by an obscured form of itself)");
+    let r = must!(e.replace_assertion(asr[j].clone(), twin.clone()), "replace refused");
+    ensure!(bytes(&e) == before, "replace_assertion altered its receiver", "");
+    ensure!(dg(&r) == dg(&e), "replacing an assertion by an element of the same digest changed the digest", "{} assertion {} form {}", s.show(), j, form);
+    if form == 0 { ensure!(bytes(&r) == before, "replacing an assertion by itself changed the envelope", "{} assertion {}", s.show(), j); }
+    let want = e.elide_removing_target_with_action(&asr[j], &match form { 1 => ObscureAction::Elide, _ => ObscureAction::Compress });
+    if form != 0 { ensure!(bytes(&r) == bytes(&want), "replacing an assertion by its obscured form differs from obscuring it in place", "{} assertion {} form {}", s.show(), j, form); }
+    // removing an absent assertion / replacing an absent assertion by a present one
+    let absent = build(&a(l(900), l(901)));
+    ensure!(bytes(&e.remove_assertion(absent.clone())) == before, "removing an absent assertion changed the envelope", "");
+    Ok(())
+}
+
 pub fn prop() -> Prop {
     Prop {
         id: "C07",
@@ -268,6 +294,12 @@ pub fn prop() -> Prop {
             Scenario { name: "crafted_digests", f: crafted_digests, thorough_only: false,
                 bounds: "2..4 assertion elements, all but one elided with sender-chosen digests that agree in the first 31 (one: first 8) bytes, every insertion permutation x every digest order",
                 api: &["From<EnvelopeCase> for Envelope", "add_assertion_envelope", "try_from_cbor_data"] },
+            Scenario { name: "replace_same", f: replace_same, thorough_only: false,
+                bounds: "every node shape of <=7 elements with known values + 2 larger ones x every assertion x replacement {the assertion itself, its elided form, its compressed form} x every digest order",
+                api: &["replace_assertion", "remove_assertion", "elide", "compress", "elide_removing_target_with_action"] },
+            Scenario { name: "attachment_container", f: super::c17::c19_container, thorough_only: false,
+                bounds: "2 host envelopes x every list of 1..3 attachments over 2 payloads x 2 vendors x conformsTo {none, 1 value, the empty string} (shared payloads and exact repeats included) x every collection order into the Attachments container, against add_attachment one by one x every digest order",
+                api: &["Attachments::add", "Attachments::add_to_envelope", "Attachments::try_from_envelope", "add_attachment"] },
             Scenario { name: "collections", f: collections, thorough_only: false,
                 bounds: "HashMap / HashSet / dcbor Map / dcbor Set / integer-keyed HashMap with 2..4 entries, every insertion permutation, at subject / predicate / object position. Decided by concrete execution of dcbor's key ordering (reported, not solver-decided)",
                 api: &["EnvelopeEncodable for HashMap/HashSet/Map/Set", "add_assertion"] },
